@@ -773,12 +773,12 @@ PPL::Grid::is_universe() const {
       return false;
     }
   }
-#ifndef NDEBUG
+  // All the congruences have a zero homogeneous part: the grid is
+  // the universe if and only if the origin satisfies all of them
+  // (otherwise the grid is empty, though it was not detected yet).
   Linear_Expression expr;
   expr.set_space_dimension(space_dim);
-  PPL_ASSERT(con_sys.satisfies_all_congruences(grid_point(expr)));
-#endif
-  return true;
+  return con_sys.satisfies_all_congruences(grid_point(expr));
 }
 
 bool
